@@ -37,6 +37,16 @@ CLAIMED["C05"] = dict(
          "np.round(.,9) = identity on ticks; on decimal lattices a centre exactly equal to the interval end is float_ambiguous (xpos not re-rounded).",
     technique="Coq theorems (keyed bin-walk induction, ceil/div arithmetic) + extracted-model/implementation correspondence",
     design="5 C05")
+CLAIMED["C06"] = dict(
+    text="Proof: the transcribed two-cursor machine of jitvaluefrom (as repaired) returns for every query of an interval the latest-at-or-before / nearest / earliest-at-or-after "
+         "source sample OF THAT INTERVAL and NaN iff none exists, for all sorted queries and sources incl. duplicates and equidistant neighbours (C06_answers); queries of "
+         "interval k only ever see sources of interval k (C06_no_cross); one answer per query in ep; answers index the restricted source array within their block. "
+         "interpolate is PARTIAL: per-interval slicing is proved/checked, np.interp itself is an oracle. Correspondence exact on the dyadic lattice; statement oracle on the public API "
+         "(Tsd/TsdFrame/TsdTensor sources, int/float, TsGroup).",
+    note="Trusted: Coq kernel; model Model/ValueFrom.v tied to _value_from/jitvaluefrom and public value_from by differential execution; np.interp (NumPy) for interpolate; "
+         "known finding: interpolate with a zero-span (single distinct timestamp) query or source series returns NaN (empty default support).",
+    technique="Coq theorems (cursor invariants per mode, induction on fuel) + extracted-model/implementation correspondence",
+    design="5 C06")
 REASON_TODO = "check not built yet in this round (planned: DESIGN.md section 5)"
 m = {
     "version": 1,
